@@ -481,14 +481,14 @@ func Run(r *mc.Run) {
 func Replay(scenario string, raw json.RawMessage) []*mc.Violation {
 	if scenario == "invariant-all-strings" {
 		var in RawIn
-		if json.Unmarshal(raw, &in) == nil {
+		if mc.UnmarshalInput(raw, &in) == nil {
 			vs, _ := checkInvariant(scenario, in)
 			return vs
 		}
 		return nil
 	}
 	var in In
-	if json.Unmarshal(raw, &in) == nil {
+	if mc.UnmarshalInput(raw, &in) == nil {
 		return checkWellFormed(scenario, in)
 	}
 	return nil
